@@ -7,4 +7,8 @@ for name in sys.argv[1:]:
     src = open(f'/verif/lean/JrpcProofs/Facts/{name}.lean').read()
     imp = re.match(r'import (\S+)', src).group(1)
     specs = re.findall(r'/-- (.*?) -/\ntheorem skel_(\w+)_shape', src, re.S)
+    others = [t for t in re.findall(r'^(?:theorem|def|example|lemma)\s+(\S+)', src, re.M) if not re.fullmatch(r'skel_\w+_shape', t)]
+    if others or not specs:
+        print(f'{name}: not a pure skeleton file (also holds {others[:3]}…): left alone; edit it by hand')
+        continue
     subprocess.check_call(['python3', '/verif/bin/mkskelfacts.py', name, imp] + [f'{fn}:{doc}' for doc, fn in specs])
